@@ -382,6 +382,101 @@ theorem no_accumulation (c : Config α) (cs : CopySpec α)
   simp only [run] at this
   rw [this]
 
+/-! ### histories in which the SET of real particles changes
+
+Between two updates of the same manager an inlet / particle splitting appends
+rows (`add_particles`), an outlet removes rows, and everything may move.  The
+model's `update` has no memory (it takes the current rows), so such histories
+are just `updateArray` applied to whatever the edit leaves; the theorems below
+say what that is.  (The compiled code does have memory — the wrappers built
+with the manager — and the harness drives exactly these histories against it.) -/
+
+/-- an edit `e` of the rows between two updates whose effect on the non-ghost
+rows is the function `eR` of the non-ghost rows alone; it may do anything to
+the ghost rows (they are dropped by the next update) -/
+def ActsOnReals (e eR : List (Particle α) → List (Particle α)) : Prop :=
+  ∀ l, removeGhosts (e l) = eR (removeGhosts l)
+
+/-- one round: the layer thickness of its update, the edit, its action on the real rows -/
+structure Round (α : Type) where
+  δ : α
+  edit : List (Particle α) → List (Particle α)
+  onReals : List (Particle α) → List (Particle α)
+
+def stepE (c : Config α) (cs : CopySpec α) (st : List (Particle α)) (r : Round α) :
+    List (Particle α) :=
+  updateArray c r.δ cs (r.edit st)
+
+/-- any number of edit-then-update rounds -/
+def runE (c : Config α) (cs : CopySpec α) (rounds : List (Round α)) (arr : List (Particle α)) :
+    List (Particle α) :=
+  rounds.foldl (stepE c cs) arr
+
+def realsStepE (c : Config α) (r : List (Particle α)) (rd : Round α) : List (Particle α) :=
+  if c.isPeriodic then (rd.onReals r).map (wrapParticle c) else rd.onReals r
+
+/-- the real particles after such a history: edited and wrapped round by round -/
+def realsAfterE (c : Config α) (rounds : List (Round α)) (reals : List (Particle α)) :
+    List (Particle α) :=
+  rounds.foldl (realsStepE c) reals
+
+/-- moving (tag-preserving), appending new rows, removing the rows that fail a
+test, and compositions of these are such edits -/
+theorem actsOnReals_move (m : Particle α → Particle α) (hm : TagPreserving m) :
+    ActsOnReals (List.map m) (List.map m) :=
+  fun l => removeGhosts_map_of_tag m hm l
+
+theorem actsOnReals_add (new : List (Particle α)) :
+    ActsOnReals (· ++ new) (· ++ removeGhosts new) :=
+  fun l => removeGhosts_append l new
+
+theorem actsOnReals_remove (keep : Particle α → Bool) :
+    ActsOnReals (List.filter keep) (List.filter keep) := by
+  intro l
+  simp only [removeGhosts, List.filter_filter]
+  congr 1
+  funext p
+  exact Bool.and_comm _ _
+
+theorem actsOnReals_comp {e₁ r₁ e₂ r₂ : List (Particle α) → List (Particle α)}
+    (h₁ : ActsOnReals e₁ r₁) (h₂ : ActsOnReals e₂ r₂) : ActsOnReals (e₂ ∘ e₁) (r₂ ∘ r₁) := by
+  intro l
+  simp only [Function.comp]
+  rw [h₂, h₁]
+
+/-- The real particles after any history of edit-then-update rounds are the
+initial ones, edited (moved / added / removed) and wrapped round by round:
+every real particle present at an update — added ones included — is wrapped by
+it, none is lost, none appears. -/
+theorem reals_of_runE (c : Config α) (cs : CopySpec α)
+    (hact : (c.isPeriodic || c.isMirror) = true) (rounds : List (Round α))
+    (hm : ∀ r ∈ rounds, ActsOnReals r.edit r.onReals) (arr : List (Particle α)) :
+    removeGhosts (runE c cs rounds arr) = realsAfterE c rounds (removeGhosts arr) := by
+  induction rounds generalizing arr with
+  | nil => rfl
+  | cons r rounds ih =>
+    simp only [runE, realsAfterE, List.foldl_cons]
+    have h1 := ih (fun r' hr' => hm r' (List.mem_cons_of_mem _ hr')) (stepE c cs arr r)
+    simp only [runE, realsAfterE] at h1
+    rw [h1]
+    congr 1
+    unfold stepE realsStepE
+    rw [update_reals c r.δ cs _ hact, hm r List.mem_cons_self]
+
+/-- **No accumulation, changing population.**  After any such history the array
+is what ONE update produces from the current real particles alone. -/
+theorem no_accumulation_changing_population (c : Config α) (cs : CopySpec α)
+    (hact : (c.isPeriodic || c.isMirror) = true) (rounds : List (Round α))
+    (hm : ∀ r ∈ rounds, ActsOnReals r.edit r.onReals)
+    (last : Round α) (hlast : ActsOnReals last.edit last.onReals) (arr : List (Particle α)) :
+    runE c cs (rounds ++ [last]) arr =
+      updateArray c last.δ cs (last.onReals (realsAfterE c rounds (removeGhosts arr))) := by
+  simp only [runE, List.foldl_append, List.foldl_cons, List.foldl_nil, stepE]
+  rw [update_ignores_old_ghosts c last.δ cs _ hact, hlast]
+  have := reals_of_runE c cs hact rounds hm arr
+  simp only [runE] at this
+  rw [this]
+
 /-- The number of periodic ghosts never exceeds 26 per real particle, whatever
 the history. -/
 theorem periodic_ghost_count_le (c : Config α) (δ : α) (cs : CopySpec α)
@@ -603,6 +698,20 @@ example :
     run exCfg exSpec [(1/8, mv), (1/8, mv)] [exOut, exStale] =
       updateArray exCfg (1/8) exSpec [{ exOut with x := 1/16 + 1/2 + 1/2, y := 1/16 }] := by
   refine ⟨fun _ => rfl, ?_⟩
+  decide +kernel
+
+/-- a history with a changing population: round 1 appends a particle that is
+outside the box (it comes out wrapped, with its images); round 2 removes the
+original particle; the result is one update of the surviving real particle -/
+example :
+    let new : Particle ℚ := { exOut with x := 33/32, y := 1/2, extra := [8] }
+    let r1 : Round ℚ := ⟨1/8, (· ++ [new]), (· ++ removeGhosts [new])⟩
+    let r2 : Round ℚ := ⟨1/8, List.filter (fun p => p.extra == [8]), List.filter (fun p => p.extra == [8])⟩
+    removeGhosts (runE exCfg exSpec [r1] [exOut, exStale]) =
+      [{ exOut with x := 1/16, y := 1/16 }, { new with x := 1/32 }] ∧
+    runE exCfg exSpec [r1, r2] [exOut, exStale] =
+      updateArray exCfg (1/8) exSpec [{ new with x := 1/32 }] ∧
+    (updateArray exCfg (1/8) exSpec [{ new with x := 1/32 }]).length = 2 := by
   decide +kernel
 
 /-- coverage: `q` near the high x face, `p` near the low one; the `−Lx` image of
